@@ -13,7 +13,7 @@ DIMS = {
     "masters": ["two_default_min", "two_default_max", "three_default_middle", "three_default_min"],
     "metrics": [[1024, 950, -250], [1000, 800, -200], [2048, 1900, -500]],
     "width": [1275, 0, 3000],
-    "scene": ["base", "nogroup", "three_glyphs", "reuse_rot"],
+    "scene": ["base", "nogroup", "three_glyphs", "reuse_rot", "sticks_out"],
     "range": ["300-700", "100-900", "0-1", "62.5-112.5"],
     "master_names": ["plain", "suffix"],
     "toml_order": ["ascending", "descending", "default_last"],
@@ -41,8 +41,13 @@ def master_scenes(a):
     from vmc.core import lattice as L
     from vmc.gen import scenes
 
-    dev = {"base": {}, "nogroup": {"grp": "none"}, "three_glyphs": {"nglyphs": 3}, "reuse_rot": {"place": "r30", "outline": "tri"}}[a["scene"]]
+    dev = {"base": {}, "nogroup": {"grp": "none"}, "three_glyphs": {"nglyphs": 3}, "reuse_rot": {"place": "r30", "outline": "tri"}, "sticks_out": {"grp": "none"}}[a["scene"]]
     glyphs, over = scenes.mk(L.full(scenes.DIMS, dev))
+    if a["scene"] == "sticks_out":
+        # a box that reaches past the right edge of the viewBox in every master: clipping to the viewBox is part of each master's build
+        from vmc.oracles.scene import Solid
+
+        glyphs[0].nodes.append(Shape("M70,60 L130,60 L130,85 L70,85 Z", Solid("purple"), label="sticks-out"))
     m = VARIANT[a["variant"]]
 
     def move(node, mm):
@@ -82,6 +87,14 @@ def instance(data, loc):
         loc.setdefault(ax.axisTag, ax.defaultValue)
     inst = instancer.instantiateVariableFont(TTFont(io.BytesIO(data)), loc)
     return colrvar.instantiate_colr(vf, inst, loc)
+
+
+def _static(workdir, glyphs, over):
+    """the static build of one master through the whole pipeline (PIPE: the picosvg step clips to the viewBox, which
+    _generate_color_font alone does not)"""
+    from vmc.drive import pipe
+
+    return pipe.build(workdir, [(f"emoji_u{'_'.join('%04x' % c for c in g.cps)}.svg", g.svg()) for g in glyphs], dict(over, output_file="Font.ttf"))
 
 
 def execute(dev):
@@ -140,7 +153,7 @@ def execute(dev):
         static_over = {"upem": upem, "ascender": asc, "descender": desc, "width": a["width"], "color_format": "glyf_colr_1", "output_file": "x.ttf"}
         for i, (gl, p) in enumerate(zip(masters, locs)):
             inst = instance(data, p)
-            scfg, sfont, _ = inproc.build_direct([(g.cps, g.svg()) for g in gl], static_over)
+            scfg, sfont, _ = _static(w / f"static{i}", gl, static_over)
             if "COLR" not in inst:
                 vs.append(bad("C18.instance-has-colr", f"instance at wght={p} has no COLR"))
                 continue
@@ -179,7 +192,7 @@ def execute(dev):
         if len(ax) != 1 or (ax[0].minValue, ax[0].defaultValue, ax[0].maxValue) != (min(pos), default, max(pos)):
             vs.append(bad("C18.default-is-default-master", f"fvar wght (min, default, max) = {[(x.minValue, x.defaultValue, x.maxValue) for x in ax]}, "
                           f"configured default {default}, master positions {pos}"))
-        dcfg, dfont, _ = inproc.build_direct([(g.cps, g.svg()) for g in masters[di]], static_over)
+        dcfg, dfont, _ = _static(w / "static-default", masters[di], static_over)
         for g in masters[di]:
             nv, nd = shaper.shape(vf, g.cps)[0], shaper.shape(dfont, g.cps)[0]
             if vf["hmtx"][nv][0] != dfont["hmtx"][nd][0]:
